@@ -32,7 +32,7 @@ ANCHORS = [
     "acnportal.acnsim.network.current:Current.__sub__",
     "acnportal.acnsim.network.current:Current.__mul__",
 ]
-REQUIRED = ["second_networks_judged", "currents_shared_with_a_second_network:second", "op:add_with_an_unusual_name", "op:add_without_a_name", "op:update_with_a_current_derived_from_the_registered_object", "tree:same_station_set_in_different_orders", "subset_queries_with_unsorted_or_repeated_periods", "op:accumulate_then_scale_in_place", "queries_over_thousands_of_periods", "op:add", "op:remove", "op:update", "op:update_rename", "op:register_refused", "op:register_refused_existing_id", "op:refused_add_unknown_station", "op:refused_remove_unknown_name", "op:refused_update_unknown_name", "subset_queries",
+REQUIRED = ["second_networks_judged", "subset_names_given_as:set", "subset_names_given_as:keys", "currents_shared_with_a_second_network:second", "op:add_with_an_unusual_name", "op:add_without_a_name", "op:update_with_a_current_derived_from_the_registered_object", "tree:same_station_set_in_different_orders", "subset_queries_with_unsorted_or_repeated_periods", "op:accumulate_then_scale_in_place", "queries_over_thousands_of_periods", "op:add", "op:remove", "op:update", "op:update_rename", "op:register_refused", "op:register_refused_existing_id", "op:refused_add_unknown_station", "op:refused_remove_unknown_name", "op:refused_update_unknown_name", "subset_queries",
             "tree:+", "tree:-", "tree:*left", "tree:*right", "tree:scalar_multiple_as_operand", "leaf:dict",
             "leaf:list", "leaf:str", "leaf:series", "leaf:tiny_coefficient"]
 BUDGET_S = {"quick": 200, "thorough": 2400}
@@ -415,7 +415,20 @@ def run_case(case, obs):
                 ti[0], ti[-1] = min(ti), max(ti)
                 unsorted_ti = ti != sorted(set(ti))
             linear = rng.random() < 0.3
-            got = np.asarray(net.constraint_current(np.array(S), constraints=sub, time_indices=ti, linear=linear))
+            # the requested names / periods in whatever container the caller holds them (membership and order of iteration are all
+            # the function needs): list, tuple, set / frozenset / keys view for names; list, tuple, numpy array, range for periods
+            cform = rng.choice(["list", "list", "tuple", "set", "frozenset", "keys"])
+            sub_arg = {"list": list, "tuple": tuple, "set": set, "frozenset": frozenset, "keys": lambda r_: {k_: 0 for k_ in r_}.keys()}[cform](sub)
+            tform = rng.choice(["list", "list", "tuple", "array", "range"])
+            ti_arg = ti
+            if tform == "tuple":
+                ti_arg = tuple(ti)
+            elif tform == "array":
+                ti_arg = np.array(ti)
+            elif tform == "range" and ti == list(range(ti[0], ti[-1] + 1)):
+                ti_arg = range(ti[0], ti[-1] + 1)
+            obs.ev("subset_names_given_as:" + cform)
+            got = np.asarray(net.constraint_current(np.array(S), constraints=sub_arg, time_indices=ti_arg, linear=linear))
             names = [nm for nm in order if nm in sub]
             exp = []
             for nm in names:
